@@ -162,9 +162,10 @@ OnProc(S, m, e) ==
 OnExit(S, m, e) ==
   LET p == e.pid
       isRound == p \in DOMAIN m.rounds
-      \* C10/C13: a command that ends normally does not take the role with it (nobody else could ever act again: every later
+      \* C10/C13: a jade command (not a scripted handle of the focused C10 runs) that ends normally does not take the role with it (nobody else could ever act again: every later
       \* try-submit-jobs, resubmit-jobs or cancel-jobs is refused)
-      m0 == Check(m, "RoleGivenBackAtExit", FaultFree(m) /\ e.exc \in {"", "SystemExit"} /\ m.holder = p /\ m.hasSt, m.st.sub = "")
+      m0 == Check(m, "RoleGivenBackAtExit", FaultFree(m) /\ e.exc \in {"", "SystemExit"} /\ m.holder = p /\ m.hasSt
+                    /\ e.k \in {"submit-jobs", "try-submit-jobs", "resubmit-jobs", "cancel-jobs"}, m.st.sub = "")
       m1 == [m0 EXCEPT !.alive = @ \ {p}, !.holder = IF @ = p THEN 0 ELSE @]
       \* C05: a recovery round started at quiescence hands over a batch or completes
       m2 == Check(m1, "QuiescentRoundProgress",
@@ -556,6 +557,9 @@ MonStepE(S, m0, e) ==
     [] e.e \in {"kill", "fault"} -> OnFault(S, m, e)     \* injected faults only; a lock timeout or a broken marker is
                                                          \* what the environment does with markers JADE itself left behind
     [] e.e = "eventsobs" -> OnEventsObs(S, m, e)
+    \* the output directory was removed and is being created anew (submit-jobs --force; focused C10 runs): what the status files
+    \* said before is history -- no continuity clause compares the new incarnation with the old one
+    [] e.e = "recreated" -> [m EXCEPT !.hasSt = FALSE, !.holder = 0]
     [] e.e = "end"       -> OnEnd(S, m, e)
     [] OTHER             -> m
 
